@@ -412,9 +412,22 @@ pub fn gen_merged(rng: &mut Rng, k: &Knobs) -> MergedSpec {
     } else {
         1
     };
-    MergedSpec {
-        parts: (0..n).map(|_| gen_timeline(rng, k)).collect(),
+    let mut parts: Vec<TlSpec> = (0..n).map(|_| gen_timeline(rng, k)).collect();
+    // One merge in sixteen is a large one: 2..6 further components, drawn from a stream of its own
+    // that is seeded by what the main stream has produced (so that every other draw of the run
+    // is what it was before large merges existed).
+    if n >= 2 {
+        let mut h = parts.iter().fold(0x6c61_7267_65u64, |h, p| {
+            h.rotate_left(9) ^ (p.duration.to_bits() as u64) ^ ((p.delay.to_bits() as u64) << 32) ^ ((p.kfs.len() as u64) << 24)
+        });
+        if simkit::rng::splitmix64(&mut h) % 16 == 0 {
+            let mut r = Rng::new(h);
+            for _ in 0..r.range(2, 6) {
+                parts.push(gen_timeline(&mut r, k));
+            }
+        }
     }
+    MergedSpec { parts }
 }
 
 pub fn gen_anim_spec(rng: &mut Rng, k: &Knobs) -> AnimSpec {
